@@ -343,7 +343,15 @@ macro_rules! msg_ops {
                 let before = ctx.shared.calls.load(Ordering::SeqCst);
                 *ctx.shared.seen.lock().unwrap() = None;
                 let client = RpcClient::<EchoSvc>::new(ctx.channel.clone());
-                let res = ctx.rt.block_on(async { client.send(&v).await });
+                // the public paths of one exchange: borrowed or owned message, the client or a
+                // clone of it (rotates with the frame, so a replay takes the same path)
+                let res = ctx.rt.block_on(async {
+                    match frame.len() % 3 {
+                        0 => client.send(&v).await,
+                        1 => client.clone().send(&v).await,
+                        _ => client.send_owned(v.clone()).await,
+                    }
+                });
                 out.calls = ctx.shared.calls.load(Ordering::SeqCst) - before;
                 let seen = ctx.shared.seen.lock().unwrap().take();
                 out.seen_same = seen
